@@ -91,6 +91,17 @@ CHECKS = {
          "with the model state by TLC."),
    note="Trusted: the harness's abstraction of snapshot entries (name{tags}, bucket upper bounds as strings, value tokens), TLC. The concurrent-snapshot clause is not covered yet.",
    design_ref="DESIGN.md section 6 C11"),
+ "C12": dict(
+   technique="TLA+ specs M3Batching.tla (the batching loop over items with charged and actual sizes; assumptions A1-A3 as named predicates) and M3Reporter.tla checked by TLC; the real loop's dequeued items (observation hooks) and the datagrams at a loopback sink validated by TLC against M3BatchingTrace.tla",
+   text=("TLC checks for all item sequences of the small domain (charged sizes, actual <= charged, flush markers anywhere, Close) that with A1 (charged >= actual per metric), A2 (overhead >= envelope + "
+         "common tags) and A3 (each metric fits alone) no datagram exceeds the maximum, nothing is dropped or duplicated, the open batch never exceeds the free bytes and the metric that does not fit "
+         "starts the next packet; the pinned tree's two deviations (bucket tags uncharged, constant envelope allowance) and three weakenings are each shown to violate their clause. On the real reporter "
+         "A1 and A2 are MEASURED for every metric and datagram (charged size from the batching loop's hook, actual size by re-encoding each decoded metric alone) over kinds x name lengths x tag "
+         "counts x extreme values x both protocols x common tags x sequence-id varint lengths x packet sizes, and TLC replays the dequeued items through the model's loop, requiring the same emits "
+         "with the same batch lengths - so the bound holds for every composition of such metrics, not only the sampled ones."),
+   note=("Trusted: the observation hooks m3p_got / m3p_emit (order of dequeued items and emits), the loopback sink + the repository's thrift decoder, re-encoding a decoded metric alone as its actual size "
+         "(struct encodings are context-free in both protocols), TLC. Cases containing a metric larger than the free bytes are outside the property's proviso."),
+   design_ref="DESIGN.md section 6 C12"),
  "C13": dict(
    technique="TLA+ specs M3Reporter.tla (producers / Flush / Close / batching goroutine / clock as threads over the bounded queue) and M3TagCache.tla (hash-keyed tag cache over strings containing '=') checked by TLC; executions of the real reporter under the controlled scheduler and free-running histories, decoded at loopback sinks, validated by TLC against M3ObsTrace.tla",
    text=("TLC checks on the model, for all interleavings of 2 producers, Flush and 1-2 Close callers with a queue of 1 (2), that every report whose call returned before Close was called is emitted exactly "
